@@ -16,3 +16,6 @@ package enum
 //@ func OverflowFlagFromString
 //@   props C04 C05 C18
 //@   pure
+//@ func CallingConvFromString
+//@   props C18
+//@   pure
